@@ -78,7 +78,7 @@ def run(tier, seed, replay_path):
     short = [p for p in paths if len(job(p)["cmds"]) <= 2]
     longer = [p for p in paths if len(job(p)["cmds"]) > 2]
     if tier == "quick":
-        chosen = short + longer[:250]
+        chosen = short + longer[:150]
     else:
         # every command list in the plain form; the other forms of the optional fields / invocation with lists of <= 3 commands
         chosen = short + [p for p in longer if job(p).get("form", "full") == "full" or len(job(p)["cmds"]) <= 3]
